@@ -236,44 +236,49 @@ func r134(c *Ctx, r *R) {
 			}
 		})
 		has1, decided := false, false
-		for _, st := range depthStores {
-			k, ok := constInt(st.Val)
-			if !ok {
-				continue
+		indirectTest := func(g Guard) bool {
+			// len(nodes) > 1 with nodes = makeDAG's result
+			b, isB := g.Cond.(*ssa.BinOp)
+			if !isB {
+				return false
 			}
-			if k == 1 {
-				for _, pc := range findCalls(fl, false, "adder.Pin") {
-					if dominatesInstr(st, pc) {
-						has1 = true
+			lc, _ := originCall(b.X)
+			if lc == nil || callName(lc.Common()) != "builtin.len" {
+				return false
+			}
+			src, idx := originCall(lc.Common().Args[0])
+			if src != mk || idx != 0 {
+				return false
+			}
+			kk, isK := constInt(b.Y)
+			if !isK {
+				return false
+			}
+			return (b.Op == token.GTR && kk == 1 && g.Branch) || (b.Op == token.GEQ && kk == 2 && g.Branch) || (b.Op == token.LEQ && kk == 1 && !g.Branch)
+		}
+		for _, st := range depthStores {
+			// the values that can be stored (through a phi or a helper that
+			// computes the depth), each with the guards of its own path
+			for _, lf := range valueLeavesDeep(st.Val, st.Block()) {
+				k, ok := constInt(lf.Val)
+				if !ok {
+					continue
+				}
+				if k == 1 {
+					for _, pc := range findCalls(fl, false, "adder.Pin") {
+						if dominatesInstr(st, pc) {
+							has1 = true
+						}
 					}
 				}
-			}
-			if k >= 2 {
-				// guard: len(nodes) > 1 with nodes = makeDAG's result
-				ok2 := guardedBy(st.Block(), func(g Guard) bool {
-					b, isB := g.Cond.(*ssa.BinOp)
-					if !isB {
-						return false
+				if k >= 2 {
+					ok2 := lf.GuardedBy(indirectTest) || guardedBy(st.Block(), indirectTest)
+					decided = true
+					if ok2 {
+						r.OK("shard-pin:depth-covers-dag", st.Pos(), "depth 2 is chosen exactly when makeDAG produced an indirect DAG (more than one node)")
+					} else {
+						r.Bad("shard-pin:depth-covers-dag", st.Pos(), "Flush decides 'indirect shard DAG' by a test other than len(makeDAG nodes) > 1: makeDAG returns 1 + ceil(links/MaxLinks) nodes, so the test `len(nodes) > links+1` can never hold and shards with more than MaxLinks links are pinned with depth 1, which does not cover their blocks")
 					}
-					lc, _ := originCall(b.X)
-					if lc == nil || callName(lc.Common()) != "builtin.len" {
-						return false
-					}
-					src, idx := originCall(lc.Common().Args[0])
-					if src != mk || idx != 0 {
-						return false
-					}
-					kk, isK := constInt(b.Y)
-					if !isK {
-						return false
-					}
-					return (b.Op == token.GTR && kk == 1 && g.Branch) || (b.Op == token.GEQ && kk == 2 && g.Branch) || (b.Op == token.LEQ && kk == 1 && !g.Branch)
-				})
-				decided = true
-				if ok2 {
-					r.OK("shard-pin:depth-covers-dag", st.Pos(), "depth 2 is chosen exactly when makeDAG produced an indirect DAG (more than one node)")
-				} else {
-					r.Bad("shard-pin:depth-covers-dag", st.Pos(), "Flush decides 'indirect shard DAG' by a test other than len(makeDAG nodes) > 1: makeDAG returns 1 + ceil(links/MaxLinks) nodes, so the test `len(nodes) > links+1` can never hold and shards with more than MaxLinks links are pinned with depth 1, which does not cover their blocks")
 				}
 			}
 		}
